@@ -394,7 +394,7 @@ fn shrink_in_child(case: &Case, v: &Violation) -> (Case, Violation, u64) {
     std::fs::write(&inp, j.to_string()).expect("write");
     let mut cmd = Command::new(self_exe());
     cmd.args(["shrink", &inp, &outp]);
-    let (_, ok, _) = run_limited(cmd, 180);
+    let (_, ok, _) = run_limited(cmd, 90);
     let res = if ok { std::fs::read_to_string(&outp).ok().and_then(|t| J::parse(&t).ok()) } else { None };
     let _ = std::fs::remove_file(&inp);
     let _ = std::fs::remove_file(&outp);
